@@ -35,7 +35,7 @@ CFG = Cfg(max_depth=3, theories={"bool", "int", "real", "bv", "arr", "uf", "quan
 
 FAIL_KINDS = ["construct", "substitute", "cnf-quantified", "qelim-nonbool", "size-measure", "get-symbol", "hr-parse",
               "smtlib-parse", "array-nonconst-key", "fi-free-vars", "custom-operator", "model-text", "malformed-declaration",
-              "with-block-raises", "generic-solver-redefinition", "simplify-custom-walker"]
+              "with-block-raises", "generic-solver-redefinition", "command-generator", "simplify-custom-walker"]
 DECL_NAME = "c15 declared name"
 GENERIC_NAME = "c15-generic-solver"
 
@@ -68,6 +68,12 @@ class World(object):
         from pysmt.smtlib.printers import SmtDagPrinter
         self.dagprinter = SmtDagPrinter(StringIO())          # a long-lived printer object
         self.generic = False
+
+    def ensure_cg_declared(self):
+        """The symbol that the command-generator probes talk about is declared (through the generator interface, which
+        does not reset the parser)."""
+        if self.parser.cache.get("cgx") is None:
+            list(self.parser.get_command_generator(StringIO("(declare-fun cgx () Int)\n")))
 
     def ensure_generic_solver(self):
         """(lazily: creating a Factory probes for every solver wrapper)"""
@@ -162,6 +168,10 @@ def do_fail(world, fail):
                     world.parser.get_assignment_list(StringIO(text))
             elif kind == "malformed-declaration":
                 world.parser.get_script(StringIO(fail[1]))
+            elif kind == "command-generator":
+                # the interactive interface: commands are read one by one, the parser keeps its state in between
+                world.ensure_cg_declared()
+                list(world.parser.get_command_generator(StringIO(fail[1])))
             elif kind == "generic-solver-redefinition":
                 from pysmt.logics import QF_BV
                 world.ensure_generic_solver()
@@ -275,6 +285,11 @@ def gen_fail(g, probe, rel):
         return ("with-block-raises",)
     if kind == "generic-solver-redefinition":
         return ("generic-solver-redefinition",)
+    if kind == "command-generator":
+        return ("command-generator", g.choice([
+            "(assert (let ((cgx 5)) (frob cgx)))", "(assert (let ((cgy 1) (cgx 5) (cgz (frob 1))) (= cgx cgy)))",
+            "(assert (forall ((cgx Bool)) (and cgx 1)))", "(define-fun cgf ((cgx Bool)) Bool (and cgx 1))",
+            "(assert (exists ((cgx Real)) (let ((cgw cgx)) (< cgw true))))", "(assert (let ((cgx 7)) (= cgx 7)"]) + "\n")
     if kind == "custom-operator":
         bf = f if t == BOOL else (probe if reftype_or_none(probe) == BOOL else const(BOOL, True))
         return ("custom-operator", g.choice(CUSTOM_SERVICES), bf)
@@ -350,6 +365,22 @@ def _check_history(run, probe, history, probes, ptexts):
                      dict(case, failing=call),
                      "%s on %s gives %r after failing calls %s, %r on the twin that never saw them" % (
                          call[0], show(call[1], 200), _brief(A.env, a), sorted(set(kinds)), _brief(Bw.env, b)))
+    # the command generator of the long-lived parser (no reset in between): a declared symbol still is that symbol
+    if "command-generator" in kinds:
+        outs = []
+        for W in (A, Bw):
+            with W.env:
+                try:
+                    W.ensure_cg_declared()
+                    cmds = list(W.parser.get_command_generator(StringIO("(assert (> cgx (- cgx)))\n")))     # (no numerals: their sort follows a set-logic that an earlier script may have left)
+                    outs.append("ok " + str(cmds[0].args[0]))
+                except Exception as e:
+                    outs.append("raised " + type(e).__name__)
+        run.cls("probe:command-generator")
+        if outs[0] != outs[1]:
+            run.fail({"subcheck": "trace:result-differs", "service": "command-generator", "after": "command-generator"}, case,
+                     "(assert (> cgx (- cgx))) read by the long-lived parser's command generator: %s after failing commands, %s on the twin" % (
+                         outs[0], outs[1]))
     # what the factory knows about its generic solver
     outs = []
     for W in ((A, Bw) if A.generic else ()):
